@@ -127,3 +127,6 @@ func (v *VerifRequest) Wait() (P2PMessage, error) {
 
 // Cancel cancels the request's context.
 func (v *VerifRequest) Cancel() { v.r.cancel() }
+
+// VerifNumOfClient reports the sizes of the incoming and the calling connection tables.
+func VerifNumOfClient(p P2PInterface) (iNum, cNum int) { return p.numOfClient() }
